@@ -209,7 +209,7 @@ theorem siftUp_handles (f : Nat) (h : Heap) (N x : Nat) (hN : N ≤ h.a.size) (h
           · exact swap_pos h N _ _ hN hx (by omega) hd hp
       · exact ⟨hd, hp⟩
 
-theorem siftUp_ordered (b : Bool) (f : Nat) (h : Heap) (N x : Nat) (hN : N ≤ h.a.size) (hfuel : x ≤ f)
+theorem siftUp_ordered (b : Bool) (f : Nat) (h : Heap) (N x : Nat) (hN : N ≤ h.a.size) (hfuel : x ≤ 2 * f)
     (hex : OrderedExcept key h N x) (hg : GrandOK key h N x) : OrderedN key (siftUp key b f h x) N := by
   induction f generalizing h x with
   | zero =>
